@@ -89,3 +89,179 @@ def index_to_calls(d):
             # the rest of this block moved to new_block (appended): it will be visited when bi reaches it
             bi += 1
     return n_total
+
+
+# ---------------------------------------------------------------------------------------------------------------------------------------------------------
+# Equivalent spellings of one atomic read-modify-write.  The rules identify counter protocols by the primitive (`fetch_add(1)` on the reservation counter,
+# `fetch_sub(1)` on a reference count, `store(false)` on a lock flag); these are rewritten to that canonical primitive when -- and only when -- the other
+# spelling is the same single RMW with the same effect:
+#   fetch_add(2^n - k) / fetch_sub(2^n - k)          ==  fetch_sub(k) / fetch_add(k)            (wrapping arithmetic of the atomics)
+#   fetch_update(set, fetch, |v| Some(v.wrapping_add(K)))   ==  fetch_add(K, set)  answering Ok(previous)   (std's own CAS loop; the closure cannot decline)
+#   swap(c, o) whose answer nobody reads              ==  store(c, o)
+# Anything else (a closure that can answer None, a checked `v + K`, a swap whose answer is used) is left alone and judged by the rules as written.
+_INT_BITS = {"u8": 8, "u16": 16, "u32": 32, "u64": 64, "usize": 64, "i8": 8, "i16": 16, "i32": 32, "i64": 64, "isize": 64}
+_ATOMIC = "std::sync::atomic::Atomic::"
+
+
+def _const_int(k):
+    if "int" in k and isinstance(k["int"], int): return k["int"]
+    s = k.get("uneval_path") or k.get("s") or ""
+    if s.endswith("::MAX") and k.get("ty") in _INT_BITS and k["ty"].startswith("u"): return (1 << _INT_BITS[k["ty"]]) - 1
+    return None
+
+
+def _rename_call(c, old, new):
+    for key in ("f", "fpath", "fname"):
+        if isinstance(c.get(key), str): c[key] = c[key].replace(old, new)
+
+
+def _local_is_read(f, l, skip_call=None):
+    def in_place(p): return isinstance(p, dict) and (p.get("l") == l or any(isinstance(e, list) and e and e[0] == "i" and e[1] == l for e in p.get("p", [])))
+    def in_op(o): return isinstance(o, list) and o and o[0] in ("c", "m") and in_place(o[1])
+    for blk in f["blocks"]:
+        for st in blk["stmts"]:
+            if st[0] != "A": continue
+            rv = st[2]
+            if in_place(st[1]) and st[1].get("p"): return True
+            for x in rv[1:]:
+                if in_op(x) or in_place(x): return True
+                if isinstance(x, list):
+                    for y in x:
+                        if in_op(y): return True
+        t = blk["term"]
+        if t[0] == "Call":
+            if t[1] is skip_call: continue
+            if any(in_op(a) for a in t[1]["args"]): return True
+        elif t[0] in ("Switch", "Yield", "Assert") and in_op(t[1]): return True
+        elif t[0] == "Drop" and in_place(t[1]): return True
+    return l == 0
+
+
+def _closure_pure_add(cf):
+    """closure body is `|v| Some(v.wrapping_add(K))` (or overflowing_add(..).0 / wrapping_sub): returns (op, K) with K = ("k", const) | ("cap", index) or None"""
+    env = {2: ("param",)}
+    def ev_place(p):
+        if not p["p"]:
+            return env.get(p["l"])
+        if p["l"] == 1:
+            fl = [e for e in p["p"] if isinstance(e, list) and e and e[0] == "f"]
+            if len(fl) == 1: return ("cap", fl[0][2])
+        base = env.get(p["l"])
+        if base and base[0] == "pair" and p["p"] == [["f", "0", 0, None]] or (base and base[0] == "pair" and len(p["p"]) == 1 and isinstance(p["p"][0], list) and p["p"][0][0] == "f" and p["p"][0][2] == 0):
+            return base[1]
+        return None
+    def ev_op(o):
+        if o[0] == "k": return ("k", o[1])
+        return ev_place(o[1])
+    b = 0; seen = set(); res = None
+    while b not in seen:
+        seen.add(b)
+        blk = cf["blocks"][b]
+        for st in blk["stmts"]:
+            if st[0] != "A": continue
+            if st[1]["p"]: return None
+            rv = st[2]
+            if rv[0] == "Use": env[st[1]["l"]] = ev_op(rv[1])
+            elif rv[0] == "Agg" and rv[1][0] == "Adt" and rv[1][1] == "std::option::Option" and rv[1][2] == "Some" and st[1]["l"] == 0:
+                res = ev_op(rv[2][0])
+            elif rv[0] == "Cast": env[st[1]["l"]] = None
+            else: env[st[1]["l"]] = None
+        t = blk["term"]
+        if t[0] == "Return": break
+        if t[0] == "Goto": b = t[1]; continue
+        if t[0] == "Call":
+            c = t[1]; nm = c.get("fname")
+            if nm in ("wrapping_add", "wrapping_sub", "overflowing_add", "overflowing_sub") and len(c["args"]) == 2 and not c["dst"]["p"]:
+                a, k = ev_op(c["args"][0]), ev_op(c["args"][1])
+                e = None
+                if a == ("param",) and k and k[0] in ("k", "cap"): e = ("add" if "add" in nm else "sub", k)
+                elif k == ("param",) and a and a[0] in ("k", "cap") and "add" in nm: e = ("add", a)
+                env[c["dst"]["l"]] = ("pair", e) if nm.startswith("overflowing") else e
+                if c["t"] is None: return None
+                b = c["t"]; continue
+            return None
+        return None
+    if res and res[0] in ("add", "sub"): return res
+    return None
+
+
+def atomic_equivalents(d):
+    by_key = {}
+    for f in d["fns"]: by_key.setdefault(f["key"], f)
+    notes = []
+    for f in d["fns"]:
+        blocks = f["blocks"]
+        for bi in range(len(blocks)):
+            blk = blocks[bi]
+            t = blk["term"]
+            if t[0] != "Call": continue
+            c = t[1]
+            if not (c.get("f") or "").startswith(_ATOMIC): continue
+            meth = c.get("fname")
+            if meth in ("fetch_add", "fetch_sub") and len(c["args"]) == 3 and c["args"][1][0] == "k":
+                k = c["args"][1][1]; v = _const_int(k); bits = _INT_BITS.get(k.get("ty"))
+                if v is not None and bits and v >= (1 << (bits - 1)):
+                    nv = (1 << bits) - v
+                    other = "fetch_sub" if meth == "fetch_add" else "fetch_add"
+                    _rename_call(c, meth, other)
+                    c["args"][1] = ["k", {"ty": k["ty"], "s": f"{nv}_{k['ty']}", "int": nv}]
+                    notes.append(f"{f['key']}: {meth}({k.get('uneval') or k.get('s')}) read as {other}({nv})")
+            elif meth == "swap" and len(c["args"]) == 3 and c["args"][1][0] == "k" and not c["dst"]["p"] and not _local_is_read(f, c["dst"]["l"], c):
+                _rename_call(c, "swap", "store")
+                notes.append(f"{f['key']}: swap(..) with an unused answer read as store(..)")
+            elif meth == "fetch_update" and len(c["args"]) == 4 and c["args"][3][0] in ("m", "c") and not c["args"][3][1]["p"] and not c["dst"]["p"]:
+                cl = c["args"][3][1]["l"]
+                agg = None
+                for b2 in blocks:
+                    for st in b2["stmts"]:
+                        if st[0] == "A" and st[1] == {"l": cl, "p": []} and st[2][0] == "Agg" and st[2][1][0] == "Closure": agg = st[2]
+                if not agg: continue
+                cf = by_key.get(agg[1][1])
+                if not cf: continue
+                r = _closure_pure_add(cf)
+                if not r: continue
+                op, k = r
+                if k[0] == "k": kop = ["k", k[1]]; ity = k[1].get("ty")
+                else:
+                    caps = cf.get("captures") or []
+                    if k[1] >= len(agg[2]): continue
+                    o = agg[2][k[1]]
+                    by_ref = caps[k[1]][1] if k[1] < len(caps) else False
+                    if by_ref:
+                        # the owner passed `&place`: read the place itself
+                        if o[0] not in ("m", "c") or o[1]["p"]: continue
+                        rdef = None
+                        for b2 in blocks:
+                            for st in b2["stmts"]:
+                                if st[0] == "A" and st[1] == {"l": o[1]["l"], "p": []} and st[2][0] == "Ref": rdef = st[2]
+                        if not rdef: continue
+                        kop = ["c", copy.deepcopy(rdef[2])]
+                    else:
+                        kop = ["c", copy.deepcopy(o[1])] if o[0] in ("m", "c") else o
+                    ity = None
+                new = "fetch_add" if op == "add" else "fetch_sub"
+                old_dst = c["dst"]["l"]
+                rty = f["locals"][old_dst]["ty"]       # Result<T, T>
+                ity = ity or (rty[rty.index("<") + 1:].split(",")[0].strip() if "<" in rty else "u32")
+                tmp = len(f["locals"]); f["locals"].append({"ty": ity, "head": ity, "name": None})
+                old_t = c["t"]
+                nb = len(blocks)
+                blocks.append({"cleanup": blk["cleanup"], "stmts": [["A", {"l": old_dst, "p": []}, ["Agg", ["Adt", "std::result::Result", "Ok", 0, ["0"]], [["c", {"l": tmp, "p": []}]]], c.get("line")]],
+                               "term": ["Goto", old_t]})
+                _rename_call(c, "fetch_update", new)
+                if isinstance(c.get("fpath"), str) and "::<{closure" in c["fpath"]: c["fpath"] = c["fpath"].split("::<{closure")[0]
+                c["gargs"] = []
+                c["args"] = [c["args"][0], kop, c["args"][1]]
+                c["dst"] = {"l": tmp, "p": []}
+                c["t"] = nb
+                c["from_fetch_update"] = True
+                # `.unwrap()` / `.expect(..)` of the answer is the previous value itself
+                for b2 in blocks:
+                    t2 = b2["term"]
+                    if t2[0] == "Call" and (t2[1].get("f") or "") in ("std::result::Result::unwrap", "std::result::Result::expect", "std::result::Result::unwrap_unchecked",
+                                                                       "std::result::Result::unwrap_or", "std::result::Result::unwrap_or_default", "std::result::Result::unwrap_or_else") \
+                            and t2[1]["args"] and t2[1]["args"][0][0] in ("m", "c") and t2[1]["args"][0][1] == {"l": old_dst, "p": []} and t2[1]["t"] is not None:
+                        b2["stmts"].append(["A", t2[1]["dst"], ["Use", ["c", {"l": tmp, "p": []}]], t2[1].get("line")])
+                        b2["term"] = ["Goto", t2[1]["t"]]
+                notes.append(f"{f['key']}: fetch_update(|v| Some(v {'+' if op == 'add' else '-'} K)) read as {new}(K)")
+    return notes
